@@ -4,7 +4,16 @@
 set -euo pipefail
 REPO=${VERIF_REPO:-/repo}
 V=/verif
-mkdir -p $V/build/ov
+# Everything generated for the real /repo lives in /verif/build and /verif/go.mod. For a scratch copy
+# of the repository (VERIF_REPO=<dir>, used for sensitivity/mutation runs) it lives in
+# /verif/build/alt-<hash>/ and is selected with go's -modfile flag, so concurrent work never collides.
+if [ "$REPO" = "/repo" ]; then
+  OUT=$V/build; MODFILE=$V/go.mod
+else
+  OUT=$V/build/alt-$(echo -n "$REPO" | md5sum | cut -c1-10); MODFILE=$OUT/go.mod
+fi
+mkdir -p $OUT/ov
+export VERIF_OUTDIR=$OUT
 /verif/scripts/build_libsodium.sh
 # --- go.mod: harness module with a replace to /repo and /repo's own requirements
 {
@@ -19,22 +28,24 @@ mkdir -p $V/build/ov
   echo "replace github.com/algorand/go-algorand => $REPO"
   echo
   awk '/^require \(/{p=1} p{print} /^\)/{p=0}' $REPO/go.mod
-  grep -E '^replace ' $REPO/go.mod || true
-} > $V/go.mod.new
-if ! cmp -s $V/go.mod.new $V/go.mod; then mv $V/go.mod.new $V/go.mod; else rm $V/go.mod.new; fi
+  grep -E "^replace " $REPO/go.mod || true
+} > $MODFILE.new
+if ! cmp -s $MODFILE.new $MODFILE; then mv $MODFILE.new $MODFILE; else rm $MODFILE.new; fi
 # go.sum: /repo's plus the cached verification modules' sums (kept in scripts/extra.sum)
-cat $REPO/go.sum $V/scripts/extra.sum 2>/dev/null | sort -u > $V/go.sum.new
-if ! cmp -s $V/go.sum.new $V/go.sum; then mv $V/go.sum.new $V/go.sum; else rm $V/go.sum.new; fi
+SUMFILE=${MODFILE%.mod}.sum
+cat $REPO/go.sum $V/scripts/extra.sum 2>/dev/null | sort -u > $SUMFILE.new
+if ! cmp -s $SUMFILE.new $SUMFILE; then mv $SUMFILE.new $SUMFILE; else rm $SUMFILE.new; fi
 # --- overlay
-python3 - "$REPO" <<'PY'
+python3 - "$REPO" "$OUT" <<'PY'
 import json,sys,os,re
 repo=sys.argv[1]
+out=sys.argv[2]
 rep={}
 for f in ("curve25519.go","batchverifier.go","vrf.go"):
     src=os.path.join(repo,"crypto",f)
     s=open(src).read()
-    s=s.replace("${SRCDIR}/libs/linux/amd64","/verif/build/libsodium")
-    dst="/verif/build/ov/"+f
+    s=s.replace("${SRCDIR}/libs/linux/amd64",out+"/libsodium")
+    dst=out+"/ov/"+f
     if not os.path.exists(dst) or open(dst).read()!=s:
         open(dst,"w").write(s)
     rep[src]=dst
@@ -51,7 +62,7 @@ for root,_,files in os.walk(hk):
             sys.stderr.write("hook %s collides with a file in /repo\n"%rel); sys.exit(1)
         rep[dst]=src
 new=json.dumps({"Replace":rep},indent=1,sort_keys=True)
-p="/verif/build/overlay.json"
+p=out+"/overlay.json"
 if not os.path.exists(p) or open(p).read()!=new:
     open(p,"w").write(new)
 PY
